@@ -195,8 +195,16 @@ func (g *vc26Gen) strItem(s string) string {
 	valid := utf8.ValidString(s)
 	if valid {
 		forms = append(forms, "quoteascii")
-		if !strings.ContainsAny(s, "\"\\\n") {
-			forms = append(forms, "dqraw")
+		// the text between the quotes, written as it is (a raw newline is in the grammar: [^"])
+		if !strings.ContainsAny(s, "\"\\") {
+			if !strings.Contains(s, "\n") {
+				forms = append(forms, "dqraw")
+			} else if !vkit.Open("DP5") {
+				forms = append(forms, "dqraw", "dqraw")
+				g.feat("str:rawnewline")
+			} else {
+				vkit.Excluded("DP5")
+			}
 		}
 		if !strings.ContainsAny(s, "'\\") {
 			forms = append(forms, "sq", "sq")
@@ -240,6 +248,9 @@ func (g *vc26Gen) strItem(s string) string {
 // an integer literal for `item`: '-'? [0-9]+
 func (g *vc26Gen) intItem() (interface{}, string) {
 	k := rapid.IntRange(0, 19).Draw(g.t, "ikind")
+	if k == 2 && rapid.IntRange(0, 3).Draw(g.t, "ioorgate") != 0 {
+		k = 5
+	}
 	var txt string
 	switch {
 	case k == 0:
@@ -416,7 +427,7 @@ var vc26Ops = []struct {
 
 // condint <- <'-'? [1-9] [0-9]* / '0'>
 func (g *vc26Gen) condInt() int64 {
-	switch rapid.IntRange(0, 9).Draw(g.t, "cikind") {
+	switch rapid.IntRange(0, 24).Draw(g.t, "cikind") {
 	case 0:
 		return math.MaxInt64
 	case 1:
@@ -481,7 +492,7 @@ func (g *vc26Gen) arg(c *Call, used map[string]bool, depth int, reservedOK bool)
 			g.feat("conditional:edge")
 		}
 		lotxt := strconv.FormatInt(lo, 10)
-		if g.wantErr == "" && !vkit.Open("DP3") && rapid.IntRange(0, 25).Draw(g.t, "cioor") == 0 {
+		if g.wantErr == "" && !vkit.Open("DP3") && rapid.IntRange(0, 80).Draw(g.t, "cioor") == 0 {
 			lotxt = rapid.SampledFrom([]string{"9223372036854775808", "-9223372036854775809", "99999999999999999999"}).Draw(g.t, "cioortxt")
 			g.wantErr = "range"
 			g.feat("int:outofrange")
@@ -505,7 +516,7 @@ func (g *vc26Gen) args(c *Call, used map[string]bool, depth, min, max int, reser
 		out += g.comma() + p
 	}
 	// a duplicate argument is rejected by design ("duplicate argument provided")
-	if g.wantErr == "" && rapid.IntRange(0, 60).Draw(g.t, "dup") == 0 {
+	if g.wantErr == "" && rapid.IntRange(0, 200).Draw(g.t, "dup") == 0 {
 		keys := make([]string, 0, len(c.Args))
 		for k, v := range c.Args {
 			if _, isCond := v.(*Condition); !isCond && !strings.HasPrefix(k, "_") {
@@ -529,6 +540,9 @@ func (g *vc26Gen) colOrRow() (interface{}, string) {
 	case 0, 1, 2:
 		// uint <- [1-9] [0-9]* / '0'
 		k := rapid.IntRange(0, 12).Draw(g.t, "ukind")
+		if k == 1 && rapid.IntRange(0, 3).Draw(g.t, "uoorgate") != 0 {
+			k = 5
+		}
 		switch {
 		case k == 0:
 			g.feat("int:edge")
@@ -554,8 +568,7 @@ func (g *vc26Gen) colOrRow() (interface{}, string) {
 		if valid && !strings.ContainsAny(s, "'\\") && rapid.Bool().Draw(g.t, "csq") {
 			return s, "'" + s + "'"
 		}
-		if valid && !strings.ContainsAny(s, "\"\\") {
-			// NB: a raw newline is fine here, the text between the quotes is the value
+		if valid && !strings.ContainsAny(s, "\"\\") && (!strings.Contains(s, "\n") || !vkit.Open("DP4")) {
 			return s, `"` + s + `"`
 		}
 		if vkit.Open("DP4") {
